@@ -59,6 +59,8 @@ class Check:
 
     def violation(self, rule, key, where='', detail='', kind='violation', evals=1, construct=None):
         """key: stable identifier rule:function:slot (no line numbers)"""
+        if key in self.violations or key in self.known_hits:
+            return      # one report per instance key
         self.evaluations += evals
         self.obligations += 1
         if (self.pid, key) in self.known:
